@@ -530,6 +530,7 @@ fn judge<T: DocElem>(ctx: &mut Ctx, transport: usize, text: &str, fields: Option
             return;
         }
     }
+    ctx.detail(|| format!("{} via {}: {} -> {}", T::NAME, tn, doc(), match &res { Ok(a) => format!("accepted as {:?}", a.size()), Err(e) => format!("error: {}", e.chars().take(60).collect::<String>()) }));
     let fields = match fields {
         Some(f) => f,
         None => {
